@@ -272,6 +272,7 @@ def run(ctx):
                             "random strings, the empty input. A case = one input with at least one error; non-trivial = at least one error "
                             "carries a repair sequence; distinct by (grammar text, costs, token list). Every reported sequence of every "
                             "error is evaluated (sequences_checked).")
+    ctx.coverage["builder_order_rule"] = repair.BUILDER_ORDER_RULE + "; both orders also carry the single-shot harness lexer (a second Lexer::iter call on one lexer panics)"
     ctx.assumptions += ["recovery budget raised to %d ms through the hook; inputs whose parse took >= 80%% of it are counted "
                         "(budget_possibly_exhausted) — reported sequences are still all checked" % repair.BUDGET_MS,
                         "the bucketed search (dijkstra + merging) is not mirrored: validity is decided per reported sequence by the "
